@@ -2,7 +2,27 @@
    Property theorems only; each is closed by `exact` of a lemma of Proofs/Place*.v.
    Model: Model/Place.v (outcomes: Ok placement | Failed 0 = InsufficientResourceError | Failed 1 =
    InvalidConstraintError | OtherError = any other exception | OutOfFuel = oracle stream exhausted).
-   Spec: Spec/Place.v ([Feasible], [wf_problem] = the documented domain, [consistent]). *)
+   Spec: Spec/Place.v ([Feasible], [wf_problem] = the documented domain, [consistent], [unit_premise], and the
+   invariants [Inv] / [PlInv] / [SAInv] that the SA statements mention).
+
+   READ THIS FIRST -- what the theorems below do NOT say:
+   * The completeness premise [unit_premise] is STRONGER than the property's last sentence: besides "one resource,
+     demands 0/1, no groups, constrained vertices fit, total free capacity suffices" it asks that reservations are
+     ranges on working chips leaving no working chip (nor the default chip) with negative capacity
+     ([up_reserve_range], [up_reservations_fit] -- without it the "total free capacity" would sum negative terms and
+     the code raises InsufficientResourceError), one chip per location-constrained vertex ([up_locations_once]), a
+     working chip when there are vertices ([up_some_chip]) and dictionaries without repeated keys.  [wf_problem]
+     excludes vertices needing a resource the machine does not list (rig ignores such keys: documented domain).
+   * [feas_capacity] counts a capacity left negative by reservations as 0 (the empty placement is feasible).
+   * Vertex orders of breadth_first / RCM and the RCM chip order come out of set iteration in CPython and are NOT
+     modelled: they are INPUTS of the model; that they list every vertex / working chip exactly once, terminate and
+     raise nothing is checked per instance by the harness only.  The Hilbert order is modelled and proved.
+   * Simulated annealing: proved are soundness (initial placement, every kernel step, any number of steps), and for the
+     part of place() before the kernel (constraints, shuffles, initial placement; also the trivial exit) documented
+     errors and completeness.  NOT proved for the annealing loop itself: termination of the float temperature
+     schedule, "no other exception" of kernel steps, and hence completeness of a full SA run -- these are observed by
+     the harness only (alarm, oracle).  The C kernel is validated per output only.
+   * C02_seq_place_terminates is true BY CONSTRUCTION of the model (see there). *)
 From Coq Require Import ZArith List Bool.
 Require Import Rig.Model.Base Rig.Model.Place Rig.Spec.Place Rig.Proofs.Place Rig.Proofs.PlaceCore
         Rig.Proofs.PlaceMerge Rig.Proofs.PlaceSeq Rig.Proofs.PlaceComplete Rig.Proofs.PlaceSA Rig.Proofs.PlaceErrors Rig.Proofs.PlaceHilbert Rig.Proofs.PlaceEntry.
@@ -37,9 +57,13 @@ Theorem C02_rand_place_sound :
     rand_place vr m cs oracle = Ok pl -> Feasible vr m cs pl.
 Proof. exact rand_place_sound. Qed.
 
-(* U -- termination.  The model of the sequential family has no loop bound of its own (the cyclic scan is a
-   structural recursion over the chips still to be tried); it is a total function and never reports an
-   exhausted bound: the `while True` loop of sequential.place always ends, whatever the orders. *)
+(* Termination of the sequential family -- BY CONSTRUCTION of the model, not a theorem about a loop.  The model has
+   no fuel: the `while True` / cycle() scan of sequential.place is written as the structural recursion [scan] over the
+   chips the cyclic iterator delivers before it is back at the position it started from, where (or at an equal chip)
+   the code's test `cur_chip == last_successful_chip` raises.  That this recursion IS the code's loop (same chips
+   tried in the same order, same exit) is established by the exact model/implementation correspondence on every
+   case and by the per-run alarm, not by this statement, which only records that no branch of the model reports an
+   exhausted bound.  (The random placer's termination theorem, by contrast, is about a fuelled loop.) *)
 Theorem C02_seq_place_terminates :
   forall vr m cs vertex_order chip_order, seq_place vr m cs vertex_order chip_order <> OutOfFuel.
 Proof. exact seq_place_terminates. Qed.
@@ -223,6 +247,53 @@ Proof. exact entry_points_documented_errors. Qed.
 Theorem C02_check_placement_fast_sound :
   forall vr m cs pl, check_placement_fast vr m cs pl = true -> Feasible vr m cs pl.
 Proof. exact check_placement_fast_sound. Qed.
+
+(* SA before the kernel (constraint handling, both shuffles, _initial_placement) and the trivial exit of place():
+   a state / placement or one of the two documented errors, and success under the completeness premise, for all
+   shuffles. *)
+Theorem C02_sa_prepare_documented_errors :
+  forall vr m cs loc_picks vertex_picks,
+    wf_problem vr m cs -> consistent cs ->
+    (exists s0, sa_prepare vr m cs loc_picks vertex_picks = Ok s0)
+    \/ sa_prepare vr m cs loc_picks vertex_picks = Failed E_insufficient
+    \/ sa_prepare vr m cs loc_picks vertex_picks = Failed E_invalid.
+Proof. exact sa_prepare_documented_errors. Qed.
+
+Theorem C02_sa_trivial_documented_errors :
+  forall vr m cs loc_picks vertex_picks,
+    wf_problem vr m cs -> consistent cs ->
+    documented_outcome (sa_place_trivial vr m cs loc_picks vertex_picks).
+Proof. exact sa_trivial_documented_errors. Qed.
+
+Theorem C02_sa_prepare_complete :
+  forall vr m cs r0 loc_picks vertex_picks,
+    wf_problem vr m cs -> unit_premise vr m cs r0 -> vr <> [] ->
+    exists s0, sa_prepare vr m cs loc_picks vertex_picks = Ok s0.
+Proof. exact sa_prepare_complete. Qed.
+
+Theorem C02_sa_trivial_complete :
+  forall vr m cs r0 loc_picks vertex_picks,
+    wf_problem vr m cs -> unit_premise vr m cs r0 ->
+    exists pl, sa_place_trivial vr m cs loc_picks vertex_picks = Ok pl.
+Proof. exact sa_trivial_complete. Qed.
+
+(* Non-vacuity of the SA theorems: a concrete run (same-chip group fixed by a location constraint, per-chip
+   reservation); the first draw is an ACCEPTED swap moving two vertices out of the destination chip, the second
+   passes every check (kept when accepted) and is performed and REVERTED when not accepted. *)
+Example C02_sa_run_example :
+  wf_problem exs_vr exs_m exs_cs /\ consistent exs_cs
+  /\ exists s0 s1 s2 s2' s,
+       sa_prepare exs_vr exs_m exs_cs [] [] = Ok s0
+       /\ st_pl (sa_init_state s0) = [(1, (0, 0)); (2, (1, 0)); (3, (1, 0)); (-1, (0, 0))]
+       /\ sa_step (ss_vr s0) (map fst (ss_fixed s0)) (sa_init_state s0) 1 (1, 0) true = Ok (s1, true)
+       /\ st_pl s1 = [(1, (1, 0)); (2, (0, 0)); (3, (0, 0)); (-1, (0, 0))]
+       /\ sa_step (ss_vr s0) (map fst (ss_fixed s0)) s1 1 (0, 0) true = Ok (s2', true)
+       /\ st_pl s2' = [(1, (0, 0)); (2, (1, 0)); (3, (1, 0)); (-1, (0, 0))]
+       /\ sa_step (ss_vr s0) (map fst (ss_fixed s0)) s1 1 (0, 0) false = Ok (s2, false)
+       /\ st_pl s2 = st_pl s1
+       /\ sa_steps (ss_vr s0) (map fst (ss_fixed s0)) (sa_init_state s0) [(1, (1, 0), true); (1, (0, 0), false)] = Ok s
+       /\ finalise (rev (ss_subs s0)) (st_pl s) = Ok [(1, (1, 0)); (2, (0, 0)); (3, (0, 0)); (4, (0, 0)); (5, (0, 0))].
+Proof. exact exs_run. Qed.
 
 (* Non-vacuity: a problem with a same-chip group, a location constraint on a member of the group, a global
    reservation and a resource exception meets the hypotheses, and both placers succeed on it. *)
